@@ -16,6 +16,10 @@ def configs(tier, seed):
             cfgs.append(("c07", b, KEYS, ("s", "D", "P", "N"), False, 2, seed))
         for b in ("fs+m", "fsc4+m"):
             cfgs.append(("c07", b, [KEYS[0], KEYS[2]], ("s", "D", "P", "E"), False, 3, seed))
+        cfgs.append(("c07", "fs", [KEYS[0], KEYS[2]], ("s", "D"), False, 3, seed))  # metadata under the data path
+        # every history kept apart (no state merging) on a small alphabet
+        cfgs.append(("c07nm", "fs", [KEYS[0], KEYS[2]], ("D",), True, 3, seed))
+        cfgs.append(("c07nm", "fsc4", [KEYS[0], KEYS[2]], ("D",), True, 3, seed))
     else:
         for b in ("fs", "fs+m", "fsc4", "fsc4+m"):
             cfgs.append(("c07", b, KEYS, ("s", "D", "P", "N", "E"), False, 3, seed))
@@ -36,7 +40,52 @@ def run(ctx):
     ctx.selfcheck("same history twice gives the same canonical state",
                   storemc.build(c0, h).canon() == storemc.build(c0, h).canon())
     storemc.run_configs(ctx, configs(ctx.tier, ctx.seed))
+    from ..core import pmap
+
+    ctx.merge(pmap(size_case, SIZES, chunksize=1))
+    ctx.extra["serialized_sizes_swept"] = SIZES
+
+
+SIZES = [4095, 4096, 4097, 65535, 65536, 65537, 131071, 131072, 131073, 1048575, 1048576, 1048577, 2097151, 2097152, 2097153]
+
+
+def size_case(n):
+    """A result whose serialized form has exactly n bytes (buffer / chunk boundaries)."""
+    import pickle
+
+    from ..core import scratch_dir, rm
+    from ..storemc import StoreRun
+
+    out = {"evaluations": 1, "states": 1, "transitions": 2, "traces": 1, "violations": [], "outcomes": ["size:%d" % n]}
+    top = scratch_dir("c07s")
+    try:
+        run = StoreRun("fs", top + "/store", [KEYS[0], KEYS[2]])
+        pad = n - len(pickle.dumps("", protocol=5))
+        while True:
+            val = "v%06d" % 1 + "z" * max(0, pad - 7)
+            d = len(pickle.dumps(val, protocol=5)) - n
+            if d == 0:
+                break
+            pad -= d
+        import vf.storemc as sm
+
+        orig = sm.value_of
+        sm.value_of = lambda cls, tick, budget: (val if cls == "Z" else orig(cls, tick, budget))
+        try:
+            bad = run.step(("memo", 0, "Z", None)) or run.integrity() or run.step(("read", 0)) or run.step(("memo", 1, "Z", None)) or run.integrity()
+        finally:
+            sm.value_of = orig
+        if bad:
+            out["violations"].append(("size|%s|%s" % ("2^k" if n & (n - 1) == 0 else "2^k+1" if (n - 1) & (n - 2) == 0 else "2^k-1", bad[0]),
+                                      "result with a serialized size of exactly %d bytes: %s" % (n, bad[1]), {"size": n}))
+    finally:
+        rm(top)
+    return out
 
 
 def replay(ctx, art):
+    if "size" in art["artefact"]:
+        r = size_case(art["artefact"]["size"])
+        print(r["violations"])
+        return 1 if r["violations"] else 0
     return storemc.replay_history(art)
